@@ -25,8 +25,12 @@ ASSUMPTIONS = [
     "documents are well-formed CIF 2.0 except that block codes, frame codes and data names (scalar items, loop headers) may "
     "repeat (same or ASCII-case-variant spelling): the DUP_* diagnostics with an error callback that accepts are modelled "
     "(Model/ParseCBDup.lean: parseCBD, run by the pcb driver and cross-checked there against parseCB on every case without a "
-    "diagnostic); for any other defect the model stops with MALFORMED (error recovery is property C12); a loop header that "
-    "loses ALL its names is outside",
+    "diagnostic); the recovery paths on which handler code runs — CIF_PARTIAL_PACKET (packet_end of the filled packet / pop of "
+    "the skip depth), CIF_EMPTY_LOOP, CIF_NULL_LOOP (loop_end with a NULL loop, no loop_start), CIF_MISSING_VALUE (item handler "
+    "with a synthetic unknown value), CIF_UNEXPECTED_VALUE, stray closing delimiters — are modelled in a third layer "
+    "(Model/ParseCBRec.lean: parseCBR, the model the pcb driver runs; cross-checked there against parseCBD on every case "
+    "without such a diagnostic) and covered by correspondence + oracle only, no theorem; for any other defect the model stops "
+    "with MALFORMED (error recovery is property C12); a loop header that loses ALL its names is outside",
     "handlers do not modify the CIF under construction",
     "default parse options (max_frame_depth clamps to 1: one level of save frames)",
 ]
